@@ -48,6 +48,7 @@ type c17Scenario struct {
 	Params      map[string]string `json:"path_params"`
 	Header      map[string]string `json:"default_header,omitempty"`
 	EmptyHeader bool              `json:"default_header_empty_non_nil,omitempty"`
+	Timeout     int64             `json:"timeout_millisecond_setting,omitempty"`
 	BodyKind    string            `json:"body"` // none | obj
 	Fault       string            `json:"fault"`
 	Evals       int               `json:"evaluations"`
@@ -197,6 +198,7 @@ func genC17(t *simrt.Tape, tier string) Scenario {
 		sc.Header = map[string]string{} // DefaultHeader is an empty, non-nil map
 		sc.EmptyHeader = true
 	}
+	sc.Timeout = []int64{0, 0, 30000, 1 << 40, 1 << 62, 1<<63 - 1}[t.Choose(6)]
 	sc.BodyKind = []string{"obj", "obj", "none"}[t.Choose(3)]
 	faults := []string{"none", "none", "none", "serializer", "transport", "torn", "empty", "malformed", "deserializer-nil", "missing-file", "read-error-after-body"}
 	sc.Fault = faults[t.Choose(len(faults))]
@@ -287,6 +289,8 @@ func (sc *c17Scenario) Run(s *simrt.Sim) {
 		api = network.NewSimpleAPI(c17Base)
 		api.GetSimpleHTTP().SetHTTPClient(&http.Client{Transport: tr})
 	}
+	// the request timeout is part of the configuration: default, ordinary, or "practically never"
+	api.GetSimpleHTTP().TimeoutMillisecond = sc.Timeout
 	if sc.Header != nil {
 		api.DefaultHeader = http.Header{}
 		for k, v := range sc.Header {
